@@ -50,15 +50,25 @@ __all__ = ("TrioEventLoop",)
 class _TrioIdleCallbackInstrument(trio.abc.Instrument):
     """IDLE callbacks emulation helper."""
 
-    __slots__ = ("idle_callbacks",)
+    __slots__ = ("idle_callbacks", "on_error")
 
-    def __init__(self, idle_callbacks: Mapping[Hashable, Callable[[], typing.Any]]):
+    def __init__(
+        self,
+        idle_callbacks: Mapping[Hashable, Callable[[], typing.Any]],
+        on_error: Callable[[Exception], typing.Any],
+    ):
         self.idle_callbacks = idle_callbacks
+        self.on_error = on_error
 
     def before_io_wait(self, timeout: float) -> None:
         if timeout > 0:
-            for idle_callback in self.idle_callbacks.values():
-                idle_callback()
+            try:
+                for idle_callback in tuple(self.idle_callbacks.values()):
+                    idle_callback()
+            except Exception as exc:  # noqa: BLE001
+                # Trio swallows exceptions raised by instruments (and disables the instrument),
+                # so hand the exception over to the main task instead.
+                self.on_error(exc)
 
 
 class TrioEventLoop(EventLoop):
@@ -78,6 +88,7 @@ class TrioEventLoop(EventLoop):
         self._pending_tasks: list[tuple[Callable[_Spec, Awaitable], trio.CancelScope, _Spec.args]] = []
 
         self._nursery: trio.Nursery | None = None
+        self._idle_exc: Exception | None = None
 
         self._sleep = trio.sleep
         self._wait_readable = trio.lowlevel.wait_readable
@@ -157,7 +168,7 @@ class TrioEventLoop(EventLoop):
         exception. If ExitMainLoop is raised, exits cleanly.
         """
 
-        emulate_idle_callbacks = _TrioIdleCallbackInstrument(self._idle_callbacks)
+        emulate_idle_callbacks = _TrioIdleCallbackInstrument(self._idle_callbacks, self._idle_callback_failed)
 
         try:
             trio.run(self._main_task, instruments=[emulate_idle_callbacks])
@@ -182,7 +193,7 @@ class TrioEventLoop(EventLoop):
                 nursery.cancel_scope.cancel()
         """
 
-        emulate_idle_callbacks = _TrioIdleCallbackInstrument(self._idle_callbacks)
+        emulate_idle_callbacks = _TrioIdleCallbackInstrument(self._idle_callbacks, self._idle_callback_failed)
 
         try:
             trio.lowlevel.add_instrument(emulate_idle_callbacks)
@@ -244,6 +255,13 @@ class TrioEventLoop(EventLoop):
 
         raise exc.with_traceback(exc.__traceback__) from None
 
+    def _idle_callback_failed(self, exc: Exception) -> None:
+        """Ends the main task with the exception raised by an idle callback."""
+        self._idle_exc = exc
+        if self._nursery is not None:
+            # wake the I/O wait that is about to start and stop the main task
+            trio.lowlevel.current_trio_token().run_sync_soon(self._nursery.cancel_scope.cancel)
+
     async def _main_task(self) -> None:
         """Main Trio task that opens a nursery and then sleeps until the user
         exits the app by raising ExitMainLoop.
@@ -254,6 +272,10 @@ class TrioEventLoop(EventLoop):
                 await trio.sleep_forever()
         finally:
             self._nursery = None
+            if self._idle_exc is not None:
+                # raised first: takes precedence over what the tasks raised while being stopped
+                exc, self._idle_exc = self._idle_exc, None
+                raise exc from None
 
     def _schedule_pending_tasks(self) -> None:
         """Schedules all pending asynchronous tasks that were created before
